@@ -20,6 +20,16 @@ func chanField(v ssa.Value) *ssa.FieldAddr {
 			if fa, ok := x.X.(*ssa.FieldAddr); ok {
 				return fa
 			}
+			// a local that function literals assign (`var q chan T; s.withLock(func() { q =
+			// s.recvQ })`): the field every assignment loads
+			if al, ok := x.X.(*ssa.Alloc); ok {
+				return chanCellField(al)
+			}
+			if fv, ok := x.X.(*ssa.FreeVar); ok {
+				if al := freeVarCell(fv); al != nil {
+					return chanCellField(al)
+				}
+			}
 		}
 	case *ssa.ChangeType:
 		return chanField(x.X)
@@ -27,6 +37,14 @@ func chanField(v ssa.Value) *ssa.FieldAddr {
 		// a channel handed to a goroutine body / helper as an argument: the field every
 		// call site passes (Prog.resolveChanParams)
 		return chanParamField[x]
+	case *ssa.Extract:
+		// a snapshot helper `func (s *socket) queues() (recvQ, sizeQ, closeQ chan …)`: result i
+		// is the field every return of the helper loads for it
+		if call, ok := x.Tuple.(*ssa.Call); ok {
+			return chanResultField(call, x.Index)
+		}
+	case *ssa.Call:
+		return chanResultField(x, 0)
 	case *ssa.Phi:
 		// all edges loads of the same field
 		var fa *ssa.FieldAddr
@@ -44,6 +62,123 @@ func chanField(v ssa.Value) *ssa.FieldAddr {
 	}
 	return nil
 }
+
+// freeVarCell: the local variable cell of the enclosing function that a captured variable is.
+func freeVarCell(fv *ssa.FreeVar) *ssa.Alloc {
+	k := fv.Parent()
+	if k == nil || k.Parent() == nil {
+		return nil
+	}
+	idx := -1
+	for i, f := range k.FreeVars {
+		if f == fv {
+			idx = i
+		}
+	}
+	var out *ssa.Alloc
+	EachInstr(k.Parent(), func(in ssa.Instruction) {
+		if mc, ok := in.(*ssa.MakeClosure); ok && mc.Fn == ssa.Value(k) && idx >= 0 && idx < len(mc.Bindings) {
+			if al, ok := mc.Bindings[idx].(*ssa.Alloc); ok {
+				out = al
+			}
+		}
+	})
+	return out
+}
+
+// chanCellField: all stores to the cell — in its function and, through captures, in the
+// function literals of that function — store loads of one channel field.
+func chanCellField(al *ssa.Alloc) *ssa.FieldAddr {
+	if chanCellDepth > 2 {
+		return nil
+	}
+	chanCellDepth++
+	defer func() { chanCellDepth-- }()
+	var fa *ssa.FieldAddr
+	ok := true
+	n := 0
+	note := func(v ssa.Value) {
+		n++
+		f := chanField(v)
+		if f == nil || (fa != nil && FieldVar(fa) != FieldVar(f)) {
+			ok = false
+			return
+		}
+		fa = f
+	}
+	if al.Referrers() == nil {
+		return nil
+	}
+	for _, ref := range *al.Referrers() {
+		switch x := ref.(type) {
+		case *ssa.Store:
+			if x.Addr == ssa.Value(al) {
+				note(x.Val)
+			}
+		case *ssa.MakeClosure:
+			k, isFn := x.Fn.(*ssa.Function)
+			if !isFn {
+				continue
+			}
+			for j, b := range x.Bindings {
+				if b != ssa.Value(al) || j >= len(k.FreeVars) {
+					continue
+				}
+				fv := k.FreeVars[j]
+				if fv.Referrers() == nil {
+					continue
+				}
+				for _, r2 := range *fv.Referrers() {
+					if st, isSt := r2.(*ssa.Store); isSt && st.Addr == ssa.Value(fv) {
+						note(st.Val)
+					}
+				}
+			}
+		}
+	}
+	if !ok || n == 0 {
+		return nil
+	}
+	return fa
+}
+
+var chanCellDepth int
+
+// chanResultField: result i of a call of a module function whose every return yields, for
+// that result, a load of one and the same channel field.
+func chanResultField(call *ssa.Call, i int) *ssa.FieldAddr {
+	sc := call.Call.StaticCallee()
+	if sc == nil || len(sc.Blocks) == 0 || chanResultDepth > 2 {
+		return nil
+	}
+	if sc.Pkg == nil || !strings.HasPrefix(sc.Pkg.Pkg.Path(), ModPath) {
+		return nil
+	}
+	chanResultDepth++
+	defer func() { chanResultDepth-- }()
+	var fa *ssa.FieldAddr
+	ok := true
+	n := 0
+	EachInstr(sc, func(in ssa.Instruction) {
+		ret, isRet := in.(*ssa.Return)
+		if !isRet || in.Block() == sc.Recover || i >= len(ret.Results) {
+			return
+		}
+		n++
+		f := chanField(resolveSpill(ret.Results[i], ret))
+		if f == nil || (fa != nil && FieldVar(fa) != FieldVar(f)) {
+			ok = false
+			return
+		}
+		fa = f
+	})
+	if !ok || n == 0 {
+		return nil
+	}
+	return fa
+}
+
+var chanResultDepth int
 
 // chanParamField: channel-typed parameter -> the struct field whose value every call site
 // (call, go, defer) of its function passes for it.
